@@ -24,14 +24,14 @@ import (
 func TestVerifC04(t *testing.T) {
 	vfMain(t, vfCheck{
 		ID: "C04", Level: "fault_enumeration",
-		Rule:        "12 scenarios (N concurrent single calls; one read call served by several short replies; concurrent and sequential ReadAt / WriteTo / WriteAt / ReadFrom mid-transfer; callers that keep issuing requests; raw dispatchRequest ledger) x fault kinds {server->client stream EOF at byte n, error at byte n (a transport error, and io.ErrClosedPipe), k-th client->server Write call fails with the connection reset, k-th Write fails one-sided, also on a transport whose Close leaves the reply stream open, k-th Write delivered but reported failed after the reply arrived}; quick: every reply-frame boundary +-1 and a seeded 12% of the interior offsets, thorough: every offset 0..T (streams longer than 2500 bytes: every offset of the first 1200 bytes and a seeded stride after) and every write index. A class is (scenario, fault kind, position bucket); non-trivial when calls were in flight at the moment of the fault.",
+		Rule:        "13 scenarios (N concurrent single calls; one read call served by several short replies; concurrent and sequential ReadAt / WriteTo / WriteAt / ReadFrom mid-transfer; callers that keep issuing requests; raw dispatchRequest ledger) x fault kinds {server->client stream EOF at byte n, error at byte n (a transport error, and io.ErrClosedPipe), k-th client->server Write call fails with the connection reset, k-th Write fails one-sided, also on a transport whose Close leaves the reply stream open, k-th Write delivered but reported failed after the reply arrived}; quick: every reply-frame boundary +-1 and a seeded 12% of the interior offsets, thorough: every offset 0..T (streams longer than 2500 bytes: every offset of the first 1200 bytes and a seeded stride after) and every write index. A class is (scenario, fault kind, position bucket); non-trivial when calls were in flight at the moment of the fault.",
 		Assumptions: []string{"'bounded time' is decided as 'no stuck state' (every goroutine parked with nothing able to wake it), not as a latency bound", "the peer is scripted, so which replies were completely delivered before byte n is known exactly", "race detector on"},
-		Units:       func(tier vfTier, seed uint64) int { return 12 * 10 },
+		Units:       func(tier vfTier, seed uint64) int { return 13 * 10 },
 		Shards: func(tier vfTier) int {
-			// 13: coprime with the 12 scenarios, so that the eight units of one (slow) scenario do not all land in one child
-			return 13
+			// 14: coprime with the 13 scenarios, so that the ten units of one (slow) scenario do not all land in one child
+			return 14
 		},
-		Floors: map[string]int64{"fault_runs": 1200, "runs_with_calls_in_flight": 400, "ledger_channels_checked": 2000, "scenarios": 12},
+		Floors: map[string]int64{"fault_runs": 1200, "runs_with_calls_in_flight": 400, "ledger_channels_checked": 2000, "scenarios": 13},
 		Run:    c04Run,
 	})
 }
@@ -139,6 +139,21 @@ func c04Scenarios() []c04Scenario {
 		{"WriteTo-seq", false, seq, transfer("WriteTo", writeTo)},
 		{"WriteAt-conc", false, con, transfer("WriteAt", writeAt)},
 		{"ReadFrom-conc", false, con, transfer("ReadFrom", readFrom)},
+		{"ReadFrom-conc-endless-source", false, con, func(c *Client, lost *atomic.Bool) []c04Result {
+			// the source is a stream: 700 bytes and the end while the connection is up, but once the connection is
+			// lost it goes on delivering for as long as it is asked. A transfer that fails returns; it does not
+			// drain its source first (bounded in logical steps: 200 further reads).
+			f, err := c.OpenFile("/f/4321", os.O_RDWR)
+			if err != nil {
+				return []c04Result{{name: "Open", err: err}}
+			}
+			src := &c04Endless{lost: lost, limit: 700}
+			n, err := f.ReadFrom(src)
+			out := []c04Result{{name: "ReadFrom", err: err, good: n == 700, detail: fmt.Sprintf("count %d", n)}}
+			out = append(out, c04Result{name: "ReadFrom-source", good: !src.drained.Load(), detail: fmt.Sprintf("the source was read %d more times after the connection was lost", src.after.Load())})
+			out = append(out, c04Result{name: "Close", err: f.Close(), good: true})
+			return out
+		}},
 		{"ReadFrom-seq", false, seq, transfer("ReadFrom", readFrom)},
 		{"shutdown-race-many-inflight", false, nil, func(c *Client, lost *atomic.Bool) []c04Result {
 			// thousands of requests are outstanding (the peer never answers /hold/ paths), so notifying
@@ -188,6 +203,33 @@ func c04Scenarios() []c04Scenario {
 
 // c04Held: result channels of the never-answered requests of the shutdown-race scenario of the current run.
 var c04Held []chan result
+
+type c04Endless struct {
+	lost    *atomic.Bool
+	limit   int
+	pos     int
+	after   atomic.Int32
+	drained atomic.Bool
+}
+
+// Len: "unknown" — the client then takes the concurrent path
+func (e *c04Endless) Len() int { return -1 }
+
+func (e *c04Endless) Read(p []byte) (int, error) {
+	n := len(p)
+	if !e.lost.Load() {
+		if e.pos >= e.limit {
+			return 0, io.EOF
+		}
+		n = min(n, e.limit-e.pos)
+	} else if e.after.Add(1) > 200 {
+		e.drained.Store(true)
+		return 0, io.EOF
+	}
+	copy(p, vfPattern(4321+1000, int64(e.pos), n))
+	e.pos += n
+	return n, nil
+}
 
 type c04Fault struct {
 	kind string // s2c-eof, s2c-error, c2s-reset, c2s-writefail
